@@ -246,6 +246,11 @@ def rank_program(ds, torch, S, seed, rank, world):
             if local(p).numel() and (not S["presence"][t][i]) and not beq(local(p).detach(), olds[i]):
                 raise Violation(f"step {t + 1}: rank {rank}: parameter {i} has no gradient but its shard changed", step=t + 1, rank=rank, param=i, kind="absent_changed")
         hist["shards"].append([local(p).detach().clone() for p in params])
+    from ..distlib import collect_placement, live_buffer_geometry
+
+    hist["placement"] = collect_placement(opt, params)
+    hist["buffers"] = live_buffer_geometry(opt) if mode in ("hsdp", "hybrid") else None
+    hist["rrank"] = mesh.get_local_rank(0) if mode in ("hsdp", "hybrid") else 0
     return hist
 
 
